@@ -48,10 +48,12 @@ CLAIMED = {
         note="Kernel-level only; the bodies of add_env/add_defaults/react are not encoded.",
         ref="2 C06", technique=MIX),
     "C07": dict(
-        text="PARTIAL (thin). Action tables for every ArgAction and the default-action / value-count inference of Arg::_build for all num_args ranges, "
-             "positional or not, 0-2 value names. The per-occurrence reaction (last-wins, append, count saturation, overrides) lives in Parser::react and is out of reach.",
-        note="Kernel-level only.",
-        ref="2 C07"),
+        text="PARTIAL. (Kani) action tables for every ArgAction and the default-action / value-count inference of Arg::_build for all num_args ranges, positional or not, 0-2 value names. "
+             "(MIR->SMT) every return path of Parser::react classified by the action: Set/SetTrue/SetFalse report ArgumentConflict exactly when an earlier occurrence existed and neither args_override_self nor a "
+             "self-override applies (else last wins), Append never removes earlier occurrences, Count is existing.saturating_add(1), SetTrue/SetFalse fill in true/false. "
+             "Override removal between different arguments (remove_overrides) and value storage order (push_arg_values) are out of reach.",
+        note="react's callees (ArgMatcher::remove, start_custom_arg, push_arg_values, ...) are opaque; its loops are cut at the back edge.",
+        ref="2 C07", technique=MIX),
     "C08": dict(
         text="PARTIAL (thin). (Kani) lexer-level half of the spelling rewrites: '--name=value' split at the first '=', short cluster walk and exact remainder, "
              "strip of one leading '=' - for all byte strings up to the bound. (MIR->SMT) prefix inference never resolves an ambiguous prefix: possible_subcommand / possible_long_flag_subcommand return an "
@@ -153,7 +155,7 @@ def main():
         "engines": [
             {"name": "kani", "path": "/verif/runner/kani.py", "serves_properties": sorted(p for p in CLAIMED if p != "C12"),
              "kind_free_text": "Kani 0.68/CBMC 6.11 harnesses (kani/lex external crate; harness/*.rs included into clap_builder under cfg clap_verif); counterexamples replayed natively via concrete playback"},
-            {"name": "mirsmt", "path": "/verif/runner/mir_check.py", "serves_properties": ["C01", "C02", "C03", "C04", "C05", "C06", "C08", "C09", "C10", "C11", "C12", "C18", "C19", "C20"],
+            {"name": "mirsmt", "path": "/verif/runner/mir_check.py", "serves_properties": ["C01", "C02", "C03", "C04", "C05", "C06", "C07", "C08", "C09", "C10", "C11", "C12", "C18", "C19", "C20"],
              "kind_free_text": "MIR (cargo +nightly rustc -Zunpretty=mir, overflow checks on) of loop-free scalar functions -> SMT-LIB2 bit-vector queries (mirsmt/*.py), decided by z3 and cvc5; candidates realised by a native #[test] in the harness module"},
         ],
         "checks": checks,
